@@ -295,6 +295,7 @@ Qed.
 
 (* a runtime rotation: the old keyset is kept (inactive, same fee), a new one with the next index becomes active *)
 Theorem rotate_spec mem_ks active fee w a :
+  fee < two63 ->
   find_ks active mem_ks = Some a -> k_id a = active ->
   mem active (map k_id (d_ks (w_db w))) = true -> mem (active + 1) (map k_id (d_ks (w_db w))) = false ->
   exists w', run (rotate_keyset mem_ks active fee) no_fault w = (w', Done (Ok tt)) /\
@@ -304,14 +305,25 @@ Theorem rotate_spec mem_ks active fee w a :
     d_ks (w_db w') = map (fun k => if k_id k =? active then mkKs (k_id k) (k_fee k) false else k) (d_ks (w_db w)) ++ [mkKs (active + 1) fee true] /\
     d_spent (w_db w') = d_spent (w_db w) /\ d_pending (w_db w') = d_pending (w_db w) /\ d_sigs (w_db w') = d_sigs (w_db w).
 Proof.
-  intros Hf Hid Hm1 Hm2. unfold rotate_keyset. destruct w as [d l m ac n]. cbn [w_db] in *. sx.
-  rewrite Hf. sx. rewrite Hid. rewrite Hm1. sx. dbx.
+  intros Hfee Hf Hid Hm1 Hm2. unfold rotate_keyset. destruct w as [d l m ac n]. cbn [w_db] in *. sx.
+  apply Z.leb_gt in Hfee. rewrite Hfee. rewrite Hf. sx. rewrite Hid. rewrite Hm1. sx. dbx.
   assert (E : mem (active + 1) (map k_id (map (fun k => if k_id k =? active then mkKs (k_id k) (k_fee k) false else k) (d_ks d))) = false).
   { rewrite map_map. replace (map (fun x => k_id (if k_id x =? active then mkKs (k_id x) (k_fee x) false else x)) (d_ks d)) with (map k_id (d_ks d)); [exact Hm2|].
     apply map_ext. intros x. destruct (k_id x =? active); reflexivity. }
   cbn [k_id]. rewrite E. sx. dbx.
   eexists. split; [reflexivity|]. cbn [w_active w_mem w_db]. dbx. repeat split.
 Qed.
+
+(* a fee that does not fit the signed 64-bit column of the keysets table is refused and nothing changes (before the fix the rotation
+   went through, the fee was stored as a negative number and no later start could read the keysets) *)
+Theorem rotate_fee_must_fit mem_ks active fee w :
+  two63 <= fee ->
+  exists w', run (rotate_keyset mem_ks active fee) no_fault w = (w', Done (Err EDb)) /\ same_but_calls w w'.
+Proof.
+  intros Hfee. unfold rotate_keyset. destruct w as [d l m ac n]. sx. apply Z.leb_le in Hfee. rewrite Hfee. sx.
+  eexists. split; [reflexivity|repeat split].
+Qed.
+
 
 (* a restart rebuilds memory from the stored rows: same ids, fees and flags *)
 Theorem load_spec fee w rows :
